@@ -9,7 +9,7 @@
      back     what Database._readParams assigns to fresh objects (c.p[name] = val)
 
    Actions = linearization points of the public path
-     Assign(e)     one more object carries a value (building the collection; no database call yet)
+     AssignAny(e)  one more object carries a value (building the collection; no database call yet)
      WriteStore    Database._writeParams returns normally  (np.array(temp) | JaggedArray(temp), packSpecialData,
                    replaceNonesWithNonsense, create_dataset, _writeAttrs)
      WriteRefuse   Database._writeParams raises; nothing is stored (refusal: store and side unchanged)
@@ -25,7 +25,12 @@
                       branch / replaceNonesWithNonsense (NONE_MAP lookup by the type of the first non-None value, astype)
    Encode/Decode transcribe the MECHANISMS (sentinel per dtype, dict key union + NaN fill, jagged
    offsets/shapes/noneLocations with unpack's shapeIndices/counter algorithm, attribute side channel).
-   NF(x) is the CONTRACT of the property statement, defined without reference to strategies.
+   NF(x) is the CONTRACT of the property statement, defined from the collection alone (it consults the writer's Jagged(x)
+   only for the informational exact-dtype field d, see I4).
+
+   Side channel: with HDF5 >= 1.10 the track_order datasets armi creates store attributes densely, so the "object header
+   message is too large" fallback of _writeAttrs is no longer reachable from _writeParams; files written with it must
+   still load, so PutAttrs/GetAttr stay in the model and the adapter feeds _readParams files in the fallback's form.
 
    Outcomes of Plan:  store | skip (accepted, all entries unset, no dataset written) | reject (must raise at write time)
                       | either  -- the code has no branch for this input (a design gap); the statement allows a refusal at
